@@ -103,9 +103,13 @@ def pick_cands(s, n, rng):
 # ------------------------------------------------------------------------------------------
 # TLC: operators over all small trees (E), histories with frame commands (E small / G)
 # ------------------------------------------------------------------------------------------
-def model_check_operators(cfgname, workers):
-    r = vlib.tlc("ScopeMC", cfgname, workers=workers, timeout=1500, heap="3g", coverage=False)
+def model_check_operators(cfgname, workers, coverage=False):
+    r = vlib.tlc("ScopeMC", cfgname, workers=workers, timeout=1500, heap="3g", coverage=coverage)
     vlib.tlc_expect_ok(r, "ScopeMC (E)")
+    if coverage:
+        vac = vlib.vacuous_actions(r)
+        if vac or not r.coverage:
+            raise ToolError(f"ScopeMC: vacuous actions {vac} (coverage entries: {len(r.coverage)})")
     if r.violated:
         raise ToolError(f"the scope specification violates its own theorem {r.violated}:\n{r.out[-2500:]}")
     pr = vlib.tlc("ScopeMC", "ScopeMC_pred.cfg", workers=1, timeout=600, heap="2g")
@@ -386,7 +390,7 @@ def run(rep, tier, replay):
                                                    (":%d" % c["k"] if "k" in c else "") for c in scripts[0]["cmds"]]})
 
     def mc():
-        r, pred = model_check_operators(cfg["mc"], workers)
+        r, pred = model_check_operators(cfg["mc"], workers, coverage=(tier == "thorough"))
         log(f"[c19] ScopeMC {cfg['mc']}: {r.distinct} trees/states, {r.generated} transitions, {r.wall:.0f}s; "
             f"design-level 'first valid DIE wins' vs Resolve: {pred}")
         return r.distinct, r.generated, pred
